@@ -233,7 +233,19 @@ def entry_getters(it):
     from naunet import chemistrydata
     P = ("C11",)
     Species.reset()
-    which = it.choose(2, "getter")
+    which = it.choose(3, "getter")
+    if which == 2:
+        # Component._create_species(x) for a Species instance x is x itself: the values a caller has set on the object (binding
+        # energy, yield, alias) stay attached to the species the reaction holds
+        from naunet.component import Component
+        sp0 = Species("#CO")
+        sp0.binding_energy = 1300.0
+        got = it.call_function(Component._create_species, [Component(), sp0], {})
+        if got is sp0:
+            it.prove(z3.BoolVal(True), "create-species/a-species-instance-is-kept-as-it-is", P)
+        else:
+            it.fail("create-species/a-species-instance-is-kept-as-it-is", P, f"returned {got!r} (binding energy {getattr(got, '_binding_energy', None)!r}) for the instance carrying 1300.0")
+        return
     own_set, user_set, r12_set = it.choose(2, "own"), it.choose(2, "user"), it.choose(2, "rate12")
     E0, Eu, Er = z3.Reals("own_value user_value rate12_value")
     sp = Species("#CO")
